@@ -1279,17 +1279,16 @@ Proof.
   destruct (abs_path_split cs Hcs) as [(-> & E1 & E2)|(ps & c & -> & Hps & Hc & E1 & E2)]; rewrite E2.
   - destruct (ofind_root s (inv_h _ Hinv)) as (n & H1 & _ & Hd). rewrite E1, H1, Hd.
     destruct (has (to_open_mode flag) OpenCreateExcl); [exact Hinv|].
-    destruct (has (to_open_mode flag) OpenWrite); exact Hinv.
+    destruct (has (to_open_mode flag) OpenWrite || has (to_open_mode flag) OpenCreate || has (to_open_mode flag) OpenTruncate); exact Hinv.
   - rewrite E1. destruct (ofind s (rpath (ps ++ [c]))) as [[ci cn]|] eqn:Ec.
     + destruct (on_dir cn).
       * destruct (has (to_open_mode flag) OpenCreateExcl); [exact Hinv|].
-        destruct (has (to_open_mode flag) OpenWrite); exact Hinv.
+        destruct (has (to_open_mode flag) OpenWrite || has (to_open_mode flag) OpenCreate || has (to_open_mode flag) OpenTruncate); exact Hinv.
       * destruct (has (to_open_mode flag) OpenCreateExcl); [exact Hinv|]. cbn [fst].
         apply ofind_some in Ec. destruct Ec as [_ Hcn]. apply inv_upd_data; assumption.
     + destruct (ofind s (rpath ps)) as [[pi pn]|] eqn:Ep; [|exact Hinv].
       destruct (on_dir pn) eqn:Ed; [|exact Hinv]. cbn [negb].
       destruct (has (to_open_mode flag) OpenCreate); [|exact Hinv]. cbn [negb].
-      destruct (has (to_open_mode flag) OpenWrite); [|exact Hinv]. cbn [negb].
       unfold o_create_file.
       pose proof (inv_create_node s ps c pi pn (N.lor (file_mode (o_os s)) (N.ldiff (N.land perm FILE_MODE_MASK) (o_umask s))) Hinv Hps Hc Ep Ed Ec) as H.
       destruct (o_create_node s pi (rpath (ps ++ [c])) c _) as [s1 c1]. exact H.
